@@ -89,6 +89,21 @@ fn gen_key(u: &mut Unstructured, pool: &mut Vec<Vec<u8>>) -> Vec<u8> {
             k
         }
         9 => Vec::new(),
+        11 if !pool.is_empty() => {
+            // sibling of a known key that differs in the low nibble of the last byte only, with a
+            // nibble that is not a bit-superset of the original one (ALPHABET alone only yields
+            // siblings whose low nibbles are nested: 0/1/f, 0/1, 0/f), so that two single-nibble
+            // leaves hang below a node whose key ends at an odd nibble
+            let mut k = g::choose(u, pool).clone();
+            if let Some(l) = k.last_mut() {
+                let low = *l & 0x0f;
+                let alt = [0x02u8, 0x04, 0x05, 0x0a, 0x0c][g::range_usize(u, 0, 4)];
+                *l = (*l & 0xf0) | if alt == low { 0x09 } else { alt };
+            } else {
+                k.push(0x12);
+            }
+            k
+        }
         _ => {
             let n = g::range_usize(u, 0, 12);
             (0..n).map(|_| *g::choose(u, &ALPHABET)).collect()
